@@ -12,7 +12,7 @@ RULE = ('random programs (3-9 statements: var/assignment operators/if-else/while
         'representable numbers incl. durations, printed with minimal parentheses per the documented precedence table and '
         'evaluated twice by ConfigCompiler::CompileText + Expression::Evaluate; operator typing matrix (every binary operator '
         'x every pair of operand kinds); precedence pairs (a op1 b op2 c for all operator pairs); scoping/closure/this '
-        'templates; Type objects and typeof (every operand kind x every primitive type, Type fields, constructor calls); union/intersection (0-4 arguments, duplicates, null, scalars, mixed kinds); match() glob patterns x texts, array form with MatchAll/MatchAny/other modes; references (&local/&this member/&global/&unknown/&a.b/&a[i]/&*p/&p, reads, assignments and compound assignments through *p, Reference#get/#set, closures capturing references, invalid operands); const, namespace blocks and using imports (constness rules, scoping inside the block, lookup order local > this > imports in textual order > System > Types > globals, imports that are dictionaries/namespaces/arrays/scalars/null); Json.encode/decode (all operand kinds, nested containers, escapes, malformed texts, nesting limit, round trip); evaluation-order family: else-if chains with 0-4 branches with/without else over overlapping conditions and with probes that log the evaluation order, nested chains, chains as values, argument/array/dictionary/use()/parameter lists with >= 3 elements, ||/&& chains, statement lists, right-nested ternaries, same-operator chains; closure-state family (closures with 0-2 parameters x use-lists of 0-2 variables that read/assign/+= captured variables, redeclare locals, rely on unset body locals, nested closures, recursion through captured function values, each called 2-3 times interleaved with outer mutations); callbacks that resize the array they iterate (map/filter/any/all); depth-limit programs (recursion and nesting around 300); recorded crash reproducers; programs broken at a '
+        'templates; Type objects and typeof (every operand kind x every primitive type, Type fields, constructor calls); union/intersection (0-4 arguments, duplicates, null, scalars, mixed kinds); match() glob patterns x texts, array form with MatchAll/MatchAny/other modes; references (&local/&this member/&global/&unknown/&a.b/&a[i]/&*p/&p, reads, assignments and compound assignments through *p, Reference#get/#set, closures capturing references, invalid operands); const, namespace blocks and using imports (constness rules, scoping inside the block, lookup order local > this > imports in textual order > System > Types > globals, imports that are dictionaries/namespaces/arrays/scalars/null); Json.encode/decode (all operand kinds, nested containers, escapes, malformed texts, nesting limit, round trip); evaluation-order family: else-if chains with 0-4 branches with/without else over overlapping conditions and with probes that log the evaluation order, nested chains, chains as values, argument/array/dictionary/use()/parameter lists with >= 3 elements, ||/&& chains, statement lists, right-nested ternaries, same-operator chains; closure-state family (closures with 0-2 parameters x use-lists of 0-2 variables that read/assign/+= captured variables, redeclare locals, rely on unset body locals, nested closures, recursion through captured function values, each called 2-3 times interleaved with outer mutations); callbacks that resize the array they iterate (map/filter/any/all); loop-mutates-iterated family (for over array / dictionary k=>v / keys() / range(len) / locals / this / globals / a namespace block, while with a container condition, Array#map/filter/any/all/reduce callbacks x body that adds after or before the current key, removes the current / an earlier / a later element, replaces the current / next / a later value, clears, clears and refills, rebinds the variable - directly, through an alias, a called closure or a global - always / on the first / second iteration / at one key, before or after the order-observable log entry, with an iteration counter and a 30-iteration emergency exit; each on the main thread, a 512 KiB thread and a coroutine stack); loop-mutated-random (random programs with loops into whose bodies mutations of the iterated collection are injected, preferring - by the extracted model - those whose loop runs at least twice); loops that freeze the iterated container and Array#sort comparators that change the array (expected values, hostile stream); depth-limit programs (recursion and nesting around 300); recorded crash reproducers; programs broken at a '
         'known token (syntax error position); hostile stream: mutated programs, random bytes, deep nesting, deep recursion on '
         'main thread / 512 KiB thread / 256 KiB coroutine stack. Candidates whose model result leaves the exact-number domain '
         'are dropped before the run. non-trivial = program with at least 3 AST nodes whose evaluation did not end in a '
@@ -22,7 +22,7 @@ TRUSTED = ['model: coq/Dsl/DslDefs.v, DslOps.v, DslJson.v, DslEval.v (hand trans
            'match(): the glob matcher is a specification-style recursive matcher; its equality with the backtracking C routine third-party/mmatch match() is compared (patterns x texts), not proved; only 7-bit text without NUL is followed',
            'union/intersection: std::set / std::sort / std::set_intersection over Value::operator< are followed for numbers-only and non-empty-strings-only operands (and the always-throwing number/string mixtures); other mixtures are outside the model',
            'Json: non-integer numbers are followed when their exact decimal expansion has at most 15 significant digits (e <= 6, |m| < 2^26) - there the shortest round-trip text nlohmann prints is that expansion; decoded float tokens when exactly representable',
-           'regex(), cidr_match(), Math.*, DateTime, Function#call/callv, freeze, basename/dirname/escape_shell_arg are NOT modelled (hostile stream / outcome classes only)',
+           'regex(), cidr_match(), Math.*, DateTime, Function#call/callv, freeze, Array#sort with a comparator, basename/dirname/escape_shell_arg are NOT modelled (hostile stream / outcome classes only; for loops that freeze their container and comparators that change the sorted array the expected VALUES are written out in vlib/p_c15.py from the code)',
            'the parser (bison/flex tables) is not modelled: precedence/associativity is COMPARED through the minimal-parenthesis printer in vlib/p_c15.py; PROVED is only that the printer table, the documented table and the %left/%right/%nonassoc declarations of config_parser.yy (all regenerated into Facts_c15.v) agree on the 20 binary operators (C15_precedence_tables_agree)',
            'numbers: the model computes with exact dyadic rationals and aborts outside |m|<2^53; generated programs are screened with the extracted model to stay inside (binary64 is exact there)',
            'error kinds are not compared (only value vs script error vs syntax error): to a program all are one ScriptError; the 300 limit is observed through values (recursion counters)',
@@ -703,7 +703,12 @@ SIDE_EFFECT = ('var', 'set', 'if', 'while', 'for', 'func', 'ret', 'break', 'cont
 
 def is_side_effect(s):
     if s[0] in SIDE_EFFECT: return True
-    if s[0] == 'expr': return s[1][0] in ('call', 'ifx', 'ifchain', 'tern')
+    if s[0] == 'expr':
+        if s[1][0] == 'tern':
+            # `{ k = v } == x ? a : b` has to be printed inside parentheses (a statement must not start with `{`), and a parenthesised
+            # expression is never a statement with a side effect for the grammar ("(1 ? 2 : 3); f()" is a syntax error)
+            return not src_e(s[1], 16, True).startswith('{')
+        return s[1][0] in ('call', 'ifx', 'ifchain')
     return False
 
 
@@ -1468,6 +1473,351 @@ def fam_order(rnd, n):
     return cs
 
 
+# ----------------------------------------------------------------------------- loops whose body changes what is being iterated
+M = lambda obj, meth, *args: ('call', ('dot', obj, meth), list(args))
+ST = lambda e: ('expr', e)
+IF = lambda c, body: ('if', c, body, None)
+LEN = lambda t: M(t, 'len')
+
+ARR_MUTS = ['add', 'rm-cur', 'rm-first', 'rm-last', 'replace', 'replace-next', 'clear', 'clear-refill', 'rebind-empty', 'rebind-other', 'rebind-null']
+DICT_MUTS = ['add-after', 'add-before', 'add-fixed', 'rm-cur', 'rm-later', 'rm-earlier', 'replace-cur', 'replace-later', 'clear', 'clear-refill',
+             'rebind-empty', 'rebind-other', 'rebind-null']
+ARR_LOOPS = ['for-arr', 'for-range-index', 'while-len', 'while-nonempty', 'map', 'filter', 'any', 'all', 'reduce']
+DICT_LOOPS = ['for-kv', 'for-keys', 'for-keys-fn', 'while-dict', 'keys-map']
+SPECIAL_LOOPS = ['for-locals', 'for-this', 'for-globals', 'for-ns']
+VIAS = ['direct', 'alias', 'func', 'global']
+WHENS = ['always', 'first', 'second', 'on-key']
+
+
+def lm_arr_mut(mut, T, n, rebind):
+    """statements mutating the ARRAY denoted by T (n = expression for the iteration counter, 1-based inside the body)"""
+    if mut == 'add': return [IF(('bin', '<', LEN(T), N(8)), [ST(M(T, 'add', ('bin', '+', n, N(10))))])]
+    if mut == 'rm-cur': return [IF(('bin', '<', ('bin', '-', n, N(1)), LEN(T)), [ST(M(T, 'remove', ('bin', '-', n, N(1))))])]
+    if mut == 'rm-first': return [IF(('bin', '>', LEN(T), N(0)), [ST(M(T, 'remove', N(0)))])]
+    if mut == 'rm-last': return [IF(('bin', '>', LEN(T), N(0)), [ST(M(T, 'remove', ('bin', '-', LEN(T), N(1))))])]
+    if mut == 'replace': return [IF(('bin', '>', LEN(T), N(2)), [('set', '=', ('idx', T, N(2)), ('bin', '+', S('r'), n))])]
+    if mut == 'replace-next': return [IF(('bin', '<', n, LEN(T)), [ST(M(T, 'set', n, ('bin', '+', S('nx'), n)))])]
+    if mut == 'clear': return [ST(M(T, 'clear'))]
+    if mut == 'clear-refill': return [ST(M(T, 'clear')), ('for', 'vi', None, C('range', N(12)), [ST(M(T, 'add', ('bin', '+', V('vi'), N(100))))])]
+    if mut == 'rebind-empty': return [('set', '=', rebind, ('arr', []))]
+    if mut == 'rebind-other': return [('set', '=', rebind, A(7, 8, 9, 10, 11, 12))]
+    if mut == 'rebind-null': return [('set', '=', rebind, ('null',))]
+    raise ValueError(mut)
+
+
+def lm_dict_mut(mut, T, n, key, rebind, keys=('ka', 'kb', 'kc'), has_clear=True):
+    """statements mutating the DICTIONARY / namespace denoted by T (key = expression for the current key)"""
+    ka, kb, kc = keys
+    small = ('bin', '<', LEN(T), N(8)) if has_clear else ('bin', '<', n, N(6))      # Namespace has len()? keep it independent of it
+    if mut == 'add-after': return [IF(small, [('set', '=', ('idx', T, ('bin', '+', key, S('z'))), n)])]          # sorts after the current key
+    if mut == 'add-before': return [IF(small, [('set', '=', ('idx', T, ('bin', '+', S('0'), key)), n)])]         # sorts before every key
+    if mut == 'add-fixed': return [('set', '=', ('idx', T, S(kc + 'q')), n), ('set', '=', ('idx', T, S('a0')), n)]
+    if mut == 'rm-cur': return [ST(M(T, 'remove', key))]
+    if mut == 'rm-later': return [ST(M(T, 'remove', S(kc)))]
+    if mut == 'rm-earlier': return [ST(M(T, 'remove', S(ka)))]
+    if mut == 'replace-cur': return [('set', '=', ('idx', T, key), ('bin', '+', S('rc'), n))]
+    if mut == 'replace-later': return [('set', '=', ('idx', T, S(kc)), ('bin', '+', S('rl'), n))]
+    if mut == 'clear': return [ST(M(T, 'clear'))]
+    if mut == 'clear-refill': return [ST(M(T, 'clear')), ('set', '=', ('idx', T, S(kb)), S('nb')), ('set', '=', ('idx', T, S(kc + 'r')), S('nr'))]
+    if mut == 'rebind-empty': return [('set', '=', rebind, ('dict', []))]
+    if mut == 'rebind-other': return [('set', '=', rebind, ('dict', [('kb', S('ob')), ('kz', S('oz'))]))]
+    if mut == 'rebind-null': return [('set', '=', rebind, ('null',))]
+    raise ValueError(mut)
+
+
+def lm_when(when, n, key, stmts):
+    if when == 'always': return stmts
+    if when == 'first': return [IF(('bin', '==', n, N(1)), stmts)]
+    if when == 'second': return [IF(('bin', '==', n, N(2)), stmts)]
+    return [IF(('bin', '==', key, S('kb')) if key is not None else ('bin', '==', n, N(3)), stmts)]
+
+
+def lm_program(loop, mut, via, when, pos, mut2=None):
+    """one program: <loop construct> over a container x <mutation of that container> applied <via> x <when> x before/after the
+    order-observable log entry.  Every body counts its iterations (`n` / `cn[0]`) and leaves the loop after 30 of them, so that
+    an implementation that keeps visiting what the body adds still terminates - with a different count."""
+    isarr = loop in ARR_LOOPS
+    callback = loop in ('map', 'filter', 'any', 'all', 'reduce', 'keys-map')
+    pre = [('var', 'va', A(1, 2, 3, 4) if isarr else ('dict', [('ka', N(1)), ('kb', N(2)), ('kc', N(3))])), ('var', 'log', ('arr', []))]
+    # the iteration counter: a plain local, or (for callbacks, whose closure copies captured scalars) a one-element array
+    if callback:
+        pre.append(('var', 'cn', ('arr', [N(0)])))
+        n = ('idx', V('cn'), N(0))
+        bump = ('set', '+=', ('idx', V('cn'), N(0)), N(1))
+    else:
+        pre.append(('var', 'n', N(0)))
+        n = V('n')
+        bump = ('set', '+=', V('n'), N(1))
+    # how the body reaches the container
+    uses = [('va', None), ('log', None), ('cn', None)]
+    if via == 'direct': T = V('va')
+    elif via == 'alias':
+        pre.append(('var', 'vb', V('va'))); T = V('vb'); uses.append(('vb', None))
+    elif via == 'global':
+        pre.append(('set', '=', ('dot', ('globals',), 'gc'), V('va'))); T = ('dot', ('globals',), 'gc')
+    else:
+        T = V('va')
+    item = V('vx') if isarr else None
+    key = None if isarr else V('vk')
+    def muts(m, tgt, nn, kk, rebind):
+        return lm_arr_mut(m, tgt, nn, rebind) if isarr else lm_dict_mut(m, tgt, nn, kk, rebind)
+    if via == 'func':
+        # the mutation lives in a function that captured the container (a reference: same object) and gets counter / key as arguments;
+        # a rebind inside it only changes the callee's own local
+        fbody = muts(mut, V('va'), V('pn'), V('pk'), V('va')) + (muts(mut2, V('va'), V('pn'), V('pk'), V('va')) if mut2 else [])
+        pre.append(('var', 'fm', ('fn', ['pn', 'pk'], [('va', None)], fbody)))
+        uses.append(('fm', None))
+        mstmts = [ST(('call', V('fm'), [n, key if key is not None else N(0)]))]
+    else:
+        mstmts = muts(mut, T, n, key, V('va')) + (muts(mut2, T, n, key, V('va')) if mut2 else [])
+    mstmts = lm_when(when, n, key, mstmts)
+    guard = IF(('bin', '>', n, N(30)), [('break',)])
+    def body(logentry, extra_pre=(), extra_post=()):
+        b = [bump] + ([] if callback else [guard]) + list(extra_pre)
+        b += (mstmts + [logentry]) if pos == 'before' else ([logentry] + mstmts)
+        return b + list(extra_post)
+    logx = ST(M(V('log'), 'add', V('vx')))
+    logkv = ST(M(V('log'), 'add', ('arr', [V('vk'), V('vv')])))
+    post = []
+    if loop == 'for-arr':
+        main = [('for', 'vx', None, V('va'), body(logx))]
+    elif loop == 'for-range-index':
+        main = [('for', 'vi', None, C('range', LEN(V('va'))), body(ST(M(V('log'), 'add', ('tern', ('bin', '<', V('vi'), LEN(V('va'))), ('idx', V('va'), V('vi')), S('gone'))))))]
+    elif loop == 'while-len':
+        main = [('var', 'vj', N(0)), ('while', ('bin', '<', V('vj'), LEN(V('va'))), body(logx, extra_pre=[('var', 'vx', ('idx', V('va'), V('vj'))), ('set', '+=', V('vj'), N(1))]))]
+    elif loop == 'while-nonempty':
+        main = [('while', ('bin', '>', LEN(V('va')), N(0)), body(logx, extra_pre=[('var', 'vx', ('idx', V('va'), N(0)))],
+                                                                  extra_post=[IF(('bin', '>', LEN(V('va')), N(0)), [ST(M(V('va'), 'remove', N(0)))])]))]
+    elif loop in ('map', 'filter', 'any', 'all'):
+        ret = {'map': ('bin', '+', S('m'), n), 'filter': ('bin', '!=', ('bin', '%', n, N(2)), N(0)), 'any': ('bool', False), 'all': ('bool', True)}[loop]
+        fn = ('fn', ['vx'], uses, body(logx) + [('ret', ret)])
+        main = [('var', 'vr', M(V('va'), loop, fn))]
+        post = [V('vr')]
+    elif loop == 'reduce':
+        fn = ('fn', ['pacc', 'vx'], uses, body(logx) + [('ret', ('bin', '+', V('pacc'), N(1)))])
+        main = [('var', 'vr', M(V('va'), 'reduce', fn))]
+        post = [V('vr')]
+    elif loop == 'for-kv':
+        main = [('for', 'vk', 'vv', V('va'), body(logkv))]
+    elif loop in ('for-keys', 'for-keys-fn'):
+        coll = M(V('va'), 'keys') if loop == 'for-keys' else C('keys', V('va'))
+        main = [('for', 'vk', None, coll, body(ST(M(V('log'), 'add', ('arr', [V('vk'), ('idx', V('va'), V('vk'))])))))]
+    elif loop == 'while-dict':
+        main = [('while', ('bin', '>', LEN(V('va')), N(0)), body(logkv, extra_pre=[('var', 'vk', ('idx', M(V('va'), 'keys'), N(0))), ('var', 'vv', ('idx', V('va'), V('vk')))],
+                                                                extra_post=[ST(M(V('va'), 'remove', V('vk')))]))]
+    elif loop == 'keys-map':
+        fn = ('fn', ['vk'], uses, body(ST(M(V('log'), 'add', ('arr', [V('vk'), ('idx', V('va'), V('vk'))])))) + [('ret', ('bin', '+', V('vk'), n))])
+        main = [('var', 'vr', M(M(V('va'), 'keys'), 'map', fn))]
+        post = [V('vr')]
+    else:
+        raise ValueError(loop)
+    if mut in ('rebind-null',) or mut2 in ('rebind-null',) or loop in ('while-len', 'while-nonempty', 'while-dict'):
+        # a loop whose condition / body dereferences the rebound variable ends in a script error: catch it, the log tells how far it got
+        main = [('try', main, [ST(M(V('log'), 'add', S('caught')))])]
+    fin = ('expr', ('arr', [n, V('log'), V('va')] + post))
+    stmts = pre + main + [fin]
+    if callback:
+        # closures see only what they capture
+        names = set()
+        def walk(x):
+            if isinstance(x, tuple):
+                if x and x[0] == 'var' and len(x) == 2 and isinstance(x[1], str): names.add(x[1])
+                for y in x: walk(y)
+            elif isinstance(x, list):
+                for y in x: walk(y)
+        walk(fn[3])
+        fn_uses = [(u, None) for u in ('va', 'vb', 'log', 'cn', 'fm') if u in names]
+        fn2 = (fn[0], fn[1], fn_uses, fn[3])
+        stmts = [replace_node(s, fn, fn2) for s in stmts]
+    return stmts
+
+
+def replace_node(x, old, new):
+    if x is old: return new
+    if isinstance(x, tuple): return tuple(replace_node(y, old, new) for y in x)
+    if isinstance(x, list): return [replace_node(y, old, new) for y in x]
+    return x
+
+
+def lm_special(loop, mut, when, pos):
+    """for (k => v in locals / this / globals / a namespace block) whose body changes that very container"""
+    if loop == 'for-locals':
+        T = ('locals',); keys = ('ka', 'kb', 'kc')
+        pre = [('var', k, N(i + 1)) for i, k in enumerate(keys)]
+    elif loop == 'for-this':
+        T = ('this',); keys = ('ka', 'kb', 'kc')
+        pre = [('set', '=', ('dot', ('this',), k), N(i + 1)) for i, k in enumerate(keys)]
+    elif loop == 'for-globals':
+        T = ('globals',); keys = ('zza', 'zzb', 'zzc')
+        pre = [('set', '=', ('dot', ('globals',), k), N(i + 1)) for i, k in enumerate(keys)]
+    else:
+        T = V('Nx'); keys = ('ka', 'kb', 'kc')
+        pre = [('namespace', 'Nx', [('set', '=', V(k), N(i + 1)) for i, k in enumerate(keys)])]
+    pre += [('var', 'log', ('arr', [])), ('var', 'n', N(0))]
+    n = V('n')
+    isns = loop in ('for-globals', 'for-ns')
+    if mut in ('clear', 'clear-refill') and isns:
+        return None           # Namespace has no clear(); (and nothing may ever empty the real globals)
+    m = lm_dict_mut(mut, T, n, V('vk'), None, keys, has_clear=not isns)
+    if loop == 'for-ns':
+        m = [('try', m, [ST(M(V('log'), 'add', S('refused')))])]       # every member of a namespace block is a constant
+    m = lm_when(when, n, None, m) if when != 'on-key' else [IF(('bin', '==', V('vk'), S(keys[1])), m)]
+    # log scalars with their value, anything else (the log itself when iterating locals...) by key only
+    scalar = ('bin', '||', ('bin', '==', C('typeof', V('vv')), V('Number')), ('bin', '==', C('typeof', V('vv')), V('String')))
+    logkv = ('if', scalar, [ST(M(V('log'), 'add', ('arr', [V('vk'), V('vv')])))], [ST(M(V('log'), 'add', V('vk')))])
+    body = [('set', '+=', n, N(1)), IF(('bin', '>', n, N(30)), [('break',)])] + ((m + [logkv]) if pos == 'before' else ([logkv] + m))
+    if loop == 'for-globals':
+        # the real globals hold the whole standard library: only the program's own entries are looked at (and counted)
+        body = [IF(('bin', '==', M(V('vk'), 'substr', N(0), N(2)), S('zz')), body)]
+    main = [('try', [('for', 'vk', 'vv', T, body)], [('var', 'vc', S('caught'))])]
+    fin_keys = ('call', ('dot', M(T, 'keys'), 'filter'), [('lam1', 'pk', ('bin', '==', M(V('pk'), 'substr', N(0), N(2)), S('zz')))]) if loop == 'for-globals' else M(T, 'keys')
+    fin = ('expr', ('arr', [('dot', ('locals',), 'n'), ('dot', ('locals',), 'log'), ('dot', ('locals',), 'vc'), fin_keys]))
+    return pre + main + [fin]
+
+
+def fam_loop_mutates(rnd, n_random, full=False):
+    """loop-mutates-iterated: every loop construct x every way the body can change what is being iterated (see lm_program),
+    each on the main thread, a 512 KiB thread and a coroutine stack"""
+    cs = []
+    seen = set()
+    def add(stmts, loop, mut, via, when):
+        if stmts is None: return
+        stmts = legalize(stmts)
+        src = src_prog(stmts)
+        if src in seen: return
+        seen.add(src)
+        ast = hx(sx_prog(stmts))
+        for mode in ('main', 'thread', 'coro'):
+            cs.append({'lines': ['dsl_eval ast=%s src=%s mode=%s' % (ast, hx(src), mode)],
+                       'tags': {'family': 'loop-mutates-iterated', 'src': src, 'nodes': count_nodes(stmts), 'loop': loop, 'mut': mut, 'via': via, 'when': when, 'mode': mode}})
+    for loops, mutl in ((ARR_LOOPS, ARR_MUTS), (DICT_LOOPS, DICT_MUTS)):
+        for loop in loops:
+            for mut in mutl:
+                for via in VIAS:
+                    combos = [(w, p) for w in WHENS for p in ('before', 'after')]
+                    if not full: combos = rnd.sample(combos, 2)
+                    for when, pos in combos:
+                        add(lm_program(loop, mut, via, when, pos), loop, mut, via, when)
+    for loop in SPECIAL_LOOPS:
+        for mut in DICT_MUTS:
+            if mut.startswith('rebind'): continue
+            combos = [(w, p) for w in WHENS for p in ('before', 'after')]
+            if not full: combos = rnd.sample(combos, 3)
+            for when, pos in combos:
+                add(lm_special(loop, mut, when, pos), loop, mut, 'direct', when)
+    # untouched baselines (the count and order of a loop whose body changes nothing, incl. `for (k => v in locals)`, which binds
+    # its own loop variables into the dictionary it walks)
+    add([('var', 'ka', N(1)), ('var', 'kb', N(2)), ('var', 'n', N(0)), ('for', 'vk', 'vv', ('locals',), [('set', '+=', V('n'), N(1))]), ('expr', V('n'))], 'for-locals', 'none', 'direct', 'always')
+    add([('var', 'ka', N(1)), ('var', 'zz', N(2)), ('var', 'n', N(0)), ('var', 'log', ('arr', [])), ('for', 'kk', 'zv', ('locals',), [('set', '+=', V('n'), N(1)), ST(M(V('log'), 'add', V('kk')))]), ('expr', ('arr', [V('n'), V('log')]))],
+        'for-locals', 'none', 'direct', 'always')
+    add([('var', 'va', ('dict', [('ka', N(1))])), ('var', 'n', N(0)), ('for', 'vk', 'vv', V('va'), [('set', '+=', V('n'), N(1)), IF(('bin', '>', V('n'), N(50)), [('break',)]), ('set', '=', ('idx', V('va'), ('bin', '+', V('vk'), S('a'))), V('n'))]),
+         ('expr', ('arr', [V('n'), LEN(V('va'))]))], 'for-kv', 'add-after', 'direct', 'always')
+    # random: two mutations in one body
+    for _ in range(n_random):
+        if rnd.random() < 0.5:
+            loop, mutl = rnd.choice(ARR_LOOPS), ARR_MUTS
+        else:
+            loop, mutl = rnd.choice(DICT_LOOPS), DICT_MUTS
+        m1, m2 = rnd.choice(mutl), rnd.choice(mutl)
+        via, when = rnd.choice(VIAS), rnd.choice(WHENS)
+        add(lm_program(loop, m1, via, when, rnd.choice(['before', 'after']), m2), loop, m1 + '+' + m2, via, when)
+    return cs
+
+
+def lm_inject(rnd, stmts, state):
+    """rewrite the outermost for / while loops of a statement list (recursing into if / try / function bodies): the iterated
+    collection is bound to a variable first, an iteration counter with an emergency exit is added, and one or two container
+    mutations of THAT collection are inserted at random positions of the body"""
+    out = []
+    for s in stmts:
+        t = s[0]
+        if t == 'for' and rnd.random() < 0.9:
+            state['n'] += 1
+            q, c = 'vq%d' % state['n'], 'vn%d' % state['n']
+            isarr = s[2] is None
+            if s[3][0] == 'var' and rnd.random() < 0.7:
+                T = s[3]
+            else:
+                out.append(('var', q, s[3])); T = V(q)
+            out.append(('var', c, N(0)))
+            body = list(s[4])
+            for _ in range(rnd.randint(1, 2)):
+                if isarr: m = lm_arr_mut(rnd.choice(ARR_MUTS), T, V(c), T)
+                else: m = lm_dict_mut(rnd.choice(DICT_MUTS), T, V(c), V(s[1]), T)
+                m = lm_when(rnd.choice(WHENS[:3]), V(c), None, m)
+                p = rnd.randint(0, len(body))
+                body[p:p] = m
+            body = [('set', '+=', V(c), N(1)), IF(('bin', '>', V(c), N(30)), [('break',)])] + body
+            out.append(('for', s[1], s[2], T, body))
+            state['hit'] += 1
+        elif t == 'while' and state.get('containers') and rnd.random() < 0.7:
+            name, isarr = rnd.choice(state['containers'])
+            state['n'] += 1
+            c = 'vn%d' % state['n']
+            out.append(('var', c, N(0)))
+            body = list(s[2])
+            m = lm_arr_mut(rnd.choice(ARR_MUTS), V(name), V(c), V(name)) if isarr else lm_dict_mut(rnd.choice(DICT_MUTS), V(name), V(c), S(rnd.choice(KEYS)), V(name))
+            p = rnd.randint(0, len(body))
+            body[p:p] = m
+            cond = s[1]
+            if rnd.random() < 0.5:      # a container condition next to the counter
+                cond = ('bin', '&&', cond, ('bin', '<', C('len', V(name)), N(rnd.randint(2, 9))))
+            body = [('set', '+=', V(c), N(1)), IF(('bin', '>', V(c), N(30)), [('break',)])] + body
+            out.append(('while', cond, body))
+            state['hit'] += 1
+        elif t == 'if':
+            els = s[3]
+            if isinstance(els, list): els = lm_inject(rnd, els, state)
+            out.append(('if', s[1], lm_inject(rnd, s[2], state), els))
+        elif t == 'try':
+            out.append(('try', lm_inject(rnd, s[1], state), lm_inject(rnd, s[2], state)))
+        elif t == 'func':
+            out.append(('func', s[1], s[2], s[3], lm_inject(rnd, s[4], dict(state, containers=[]))))
+        else:
+            if t == 'var' and s[2][0] in ('arr', 'dict') and not state.get('nested'):
+                state.setdefault('containers', []).append((s[1], s[2][0] == 'arr'))
+            out.append(s)
+    return out
+
+
+def fam_loop_hostile(rnd, n):
+    """hostile loop stream: valid random programs with loops, into whose loop bodies mutations of the iterated container are
+    inserted; still inside the modelled language, so the full observation is compared (on a random stack)"""
+    cand = []
+    tries = 0
+    while len(cand) < 6 * n and tries < 240 * n:
+        tries += 1
+        try:
+            prog = random_program(rnd)
+        except RecursionError:
+            continue
+        text = src_prog(prog)
+        if 'for (' not in text and 'while (' not in text:
+            continue
+        state = {'n': 0, 'hit': 0, 'containers': []}
+        prog2 = legalize(lm_inject(rnd, prog, state))
+        if not state['hit']:
+            continue
+        src = src_prog(prog2)
+        # the small stacks only for programs without function definitions: a recursion that is stopped by the 300-level limit on the main
+        # thread exhausts the 256 KiB coroutine stack first (recorded finding coroutine-stack-overflow, reproduced by its own tagged inputs)
+        mode = rnd.choice(['main', 'thread', 'coro']) if ('function' not in src and '{{' not in src and '=>' not in re.sub(r'for \(\w+ => \w+ in', '', src)) else 'main'
+        cand.append({'lines': ['dsl_eval ast=%s src=%s mode=%s' % (hx(sx_prog(prog2)), hx(src), mode)],
+                     'tags': {'family': 'loop-mutated-random', 'src': src, 'nodes': count_nodes(prog2), 'mode': mode}})
+    # prefer the programs in which (by the model) a rewritten top-level loop ran at least twice: most random programs stop with a
+    # script error before they reach their loop
+    res = model_run(cand)
+    if res is None:
+        return cand[:n]
+    ran, rest = [], []
+    for i, c in enumerate(cand):
+        loc = ''.join(l for l in res[i] if l.startswith('locals '))
+        hit = any(int(x) >= 2 for x in re.findall(r'"vn\d+":(\d+)', loc))
+        c['tags']['loop_ran'] = hit
+        (ran if hit else rest).append(c)
+    return (ran[:n - n // 8] + rest)[:n]
+
+
 NEVER_VALID = ['$', '@@', '`']      # characters that are no terminal of the grammar at all (the lexer hands them through as themselves)
 CLOSERS = {')': '(', ']': '[', '}': '{'}
 
@@ -1609,6 +1959,27 @@ def fam_hostile(rnd, n_mut, n_rand):
                             ('match("a*", "abc")\n', 'value', 'true'), ('union([2, 1], [1])\n', 'value', '[1,2]'), ('Json.decode("[1]")\n', 'value', '[1]'), ('&this\n', 'error', None),
                             ('using { a = 1 }\na\n', 'error', None), ('Json.encode([1, { }])\n', 'value', '"[1,{}]"'), ('Json.encode([1, { a = 1 }])\n', 'error', None), ('*null\n', 'error', None), ('intersection([1], [1])\n', 'value', '[1]')):
         add(src, 'sandbox:new', ('main',), want=want, show=show, sb=True)
+    # loops whose body FREEZES the iterated container, and Array#sort with a comparator that changes the array (freeze and user
+    # comparators are not in the Gallina model: expected values from the code - Array/Dictionary::Freeze make every later Set/Add/
+    # Remove/Clear throw, reads and the loops' own key snapshot / index test are unaffected; `for (k => v in locals)` binds its loop
+    # variables with Dictionary::Set, which a frozen locals dictionary refuses at the next turn; sort works on a shallow clone)
+    for src, show in (
+            ('var a = [1, 2, 3]\nvar log = []\ntry { for (x in a) { log.add(x); a.freeze(); a.add(9) } } except { log.add("caught") }\n[log, a]\n', '[[1,"caught"],[1,2,3]]'),
+            ('var a = [1, 2, 3]\nvar log = []\nfor (x in a) { log.add(x); a.freeze() }\n[log, a]\n', '[[1,2,3],[1,2,3]]'),
+            ('var d = { a = 1, b = 2 }\nvar log = []\ntry { for (k => v in d) { log.add([k, v]); d.freeze(); d.c = 3 } } except { log.add("caught") }\n[log, d]\n', '[[["a",1],"caught"],{"a":1,"b":2}]'),
+            ('var d = { a = 1, b = 2 }\nvar log = []\ntry { for (k => v in d) { log.add([k, v]); d.freeze(); d.remove(k) } } except { log.add("caught") }\n[log, d]\n', '[[["a",1],"caught"],{"a":1,"b":2}]'),
+            ('var d = { a = 1, b = 2 }\nvar log = []\nfor (k => v in d) { log.add([k, v]); d.freeze() }\n[log, d]\n', '[[["a",1],["b",2]],{"a":1,"b":2}]'),
+            ('var d = { a = 1, b = 2 }\nd.freeze()\nvar log = []\nfor (k => v in d) { log.add(k) }\nlog\n', '["a","b"]'),
+            ('var log = []\nthis.a = 1\nthis.b = 2\ntry { for (k => v in this) { log.add(k); this.freeze(); this.c = 3 } } except { log.add("caught") }\nlog\n', '["a","caught"]'),
+            ('var log = []\nvar a = 1\ntry { for (k => v in locals) { log.add(k); locals.freeze() } } except { log.add("caught") }\nlog\n', '["a","caught"]'),
+            ('var a = [1, 2, 3]\nvar n = 0\nwhile (a.len() > 0) { n += 1; a.freeze(); try { a.remove(0) } except { break } }\n[n, a]\n', '[1,[1,2,3]]'),
+            ('var a = [1, 2, 3]\nvar log = []\ntry { a.map(function(x) use(a, log) { log.add(x); a.freeze(); a.add(4); return x }) } except { log.add("caught") }\n[log, a]\n', '[[1,"caught"],[1,2,3]]'),
+            ('var a = [1, 2, 3]\nvar log = []\nvar r = a.filter(function(x) use(a, log) { log.add(x); a.freeze(); return true })\n[log, a, r]\n', '[[1,2,3],[1,2,3],[1,2,3]]'),
+            ('var a = [1, 2, 3]\nvar r = a.reduce(function(x, y) use(a) { a.freeze(); return x + y })\n[a, r]\n', '[[1,2,3],6]'),
+            ('var a = [3, 1, 2]\nvar n = [0]\nvar r = a.sort(function(x, y) use(a, n) { n[0] += 1; if (a.len() < 5) { a.add(9) }; return x < y })\n[a, r, n[0] > 1]\n', '[[3,1,2,9,9],[1,2,3],true]'),
+            ('var a = [3, 1, 2]\nvar r = a.sort(function(x, y) use(a) { a.clear(); return x < y })\n[a, r]\n', '[[],[1,2,3]]'),
+            ('var a = [3, 1, 2]\nvar r = a.sort(function(x, y) use(a) { a = null; return x > y })\n[a, r]\n', '[[3,1,2],[3,2,1]]')):
+        add(src, 'loopmut:freeze-sort', want='value' if show is not None else 'error', show=show)
     # mutated programs
     done = 0
     while done < n_mut:
@@ -1645,12 +2016,12 @@ def fam_hostile(rnd, n_mut, n_rand):
 DROP = ('abort:domain', 'abort:fuel')
 
 
-def screen(cases):
-    """drop dsl_eval cases whose MODEL result leaves the exact domain (inexact numbers, unmodelled conversions, loop budget)"""
-    ev = [c for c in cases if c['lines'][0].startswith('dsl_eval')]
+def model_run(ev):
+    """run the extracted model over dsl_eval cases: {index in ev: model lines}; None when vmodel has not been built yet"""
     if not ev or not os.path.exists(core.VMODEL):
-        return cases, 0
+        return None
     wd = tempfile.mkdtemp(prefix='c15scr_', dir=core.B)
+    saved = [c.get('id') for c in ev]
     try:
         for i, c in enumerate(ev):
             c['id'] = i + 1
@@ -1660,18 +2031,27 @@ def screen(cases):
         with cf.ThreadPoolExecutor(core.NPROC) as ex:
             for r in ex.map(lambda a: core.run_model_shard(([], a[1], wd, a[0], 120)), enumerate(shards)):
                 res.update(r)
-        bad = set()
-        for c in ev:
-            ls = res.get(c['id'], ['MODEL-ERROR'])
-            if any(l.startswith('MODEL-ERROR') for l in ls) or any(l[4:] in DROP for l in ls if l.startswith('res ')):
-                bad.add(id(c))
-        out = [c for c in cases if id(c) not in bad]
-        for c in cases:
-            c.pop('id', None)
-        return out, len(bad)
+        return {i: res.get(i + 1, ['MODEL-ERROR']) for i in range(len(ev))}
     finally:
+        for c, sid in zip(ev, saved):
+            if sid is None: c.pop('id', None)
+            else: c['id'] = sid
         import shutil
         shutil.rmtree(wd, ignore_errors=True)
+
+
+def screen(cases):
+    """drop dsl_eval cases whose MODEL result leaves the exact domain (inexact numbers, unmodelled conversions, loop budget)"""
+    ev = [c for c in cases if c['lines'][0].startswith('dsl_eval')]
+    res = model_run(ev)
+    if res is None:
+        return cases, 0
+    bad = set()
+    for i, c in enumerate(ev):
+        ls = res[i]
+        if any(l.startswith('MODEL-ERROR') for l in ls) or any(l[4:] in DROP for l in ls if l.startswith('res ')):
+            bad.add(id(c))
+    return [c for c in cases if id(c) not in bad], len(bad)
 
 
 _last_dropped = [0]
@@ -1696,6 +2076,8 @@ def generate(seed, tier):
     cases += fam_namespaces(rnd, {'quick': 150, 'thorough': 1500, 'search': 300}.get(tier, 150))
     cases += fam_json(rnd, {'quick': 150, 'thorough': 1500, 'search': 300}.get(tier, 150))
     cases += fam_order(rnd, {'quick': 150, 'thorough': 1500, 'search': 300}.get(tier, 150))
+    cases += fam_loop_mutates(rnd, {'quick': 300, 'thorough': 3000, 'search': 600}.get(tier, 300), full=(tier == 'thorough'))
+    cases += fam_loop_hostile(rnd, {'quick': 400, 'thorough': 4000, 'search': 800}.get(tier, 400))
     for _ in range(n_rand):
         try:
             cases.append(mk_case(random_program(rnd), 'random-program'))
@@ -1759,6 +2141,12 @@ def extra_stats(cases, impl):
                 res['syntax_located'] += 1
     res['dropped_outside_exact_domain'] = _last_dropped[0]
     res['closure_called_twice_after_assigning_captured'] = sum(1 for c in cases if c.get('tags', {}).get('closure_assign_multi'))
+    lm = [c.get('tags', {}) for c in cases if c.get('tags', {}).get('family') == 'loop-mutates-iterated' and c.get('tags', {}).get('mode') == 'main']
+    res['loop_mutates_programs'] = len(lm)
+    res['loop_mutates_constructs'] = len(set(t.get('loop') for t in lm))
+    res['loop_mutates_construct_x_mutation_x_via'] = len(set((t.get('loop'), t.get('mut'), t.get('via')) for t in lm))
+    res['loop_mutated_random_programs'] = sum(1 for c in cases if c.get('tags', {}).get('family') == 'loop-mutated-random')
+    res['loop_mutated_random_loop_ran_twice'] = sum(1 for c in cases if c.get('tags', {}).get('loop_ran'))
     res['closure_state_programs'] = sum(1 for c in cases if c.get('tags', {}).get('family') == 'closure-state')
     kw = {'typeof': 'typeof(', 'union': 'union(', 'intersection': 'intersection(', 'match': 'match(', 'ref': '&', 'const': 'const ', 'namespace': 'namespace ', 'using': 'using ', 'json': 'Json.',
           'else_if_chain2': None}
